@@ -180,6 +180,25 @@ def make_case(args):
                 rec["crash"] = f"{type(e).__name__}: {str(e)[:200]}"
             rec["informational"] = True  # the property names rotations and reversal; arbitrary shuffles are reported, not failed
             out.append(rec)
+    # sector grids (directions covering part of the circle) stored descending: statistics, smoothing and direction bands give the
+    # same labelled result as for ascending storage
+    if icase % 3 == 0:
+        nds, dds = rng.choice([6, 8, 12]), rng.choice([10.0, 15.0])
+        sd = rng.choice([0.0, 20.0, 185.0]) + dds * np.arange(nds)
+        Esec = gen.gen_spectrum(rng, nf, nds, kind=rng.choice(["blobs", "noisy"]))[0] + 0.015625
+        bsec = gen.make_da(freq, sd, Esec)
+        S = {"smooth": lambda x: x.spec.smooth(3, 3), "smooth5": lambda x: x.spec.smooth(1, 5), "hs": lambda x: x.spec.hs(), "dm": lambda x: x.spec.dm(),
+             "dspr": lambda x: x.spec.dspr(), "dpm": lambda x: x.spec.dpm(), "oned": lambda x: x.spec.oned(),
+             "split_dir": lambda x: x.spec.split(dmin=float(sd[1]), dmax=float(sd[-2])),
+             "stats_dir": lambda x: x.spec.stats(["hs", "dm"], dmin=float(sd[1]), dmax=float(sd[-2]))}
+        for vtag, v in (("sector_reversed", bsec.isel(dir=slice(None, None, -1))), ("sector_reversed_T", bsec.isel(dir=slice(None, None, -1)).transpose("dir", "freq"))):
+            for opn, f in S.items():
+                rec = dict(op="sector:" + opn, variant=vtag, icase=icase, dims=list(v.dims), nd=nds, nf=nf)
+                try:
+                    rec["diff"] = opcat.compare(opcat.canon(f(v)), opcat.canon(f(bsec)), rel=3e-6 if opn in ("dpm",) else 1e-9)
+                except Exception as e:
+                    rec["crash"] = f"{type(e).__name__}: {str(e)[:200]}"
+                out.append(rec)
     # numpy-level kernels with non C-contiguous arrays
     S = np.asarray(da.values.reshape((-1, nf, nd))[0], dtype=float)
     try:
